@@ -151,6 +151,61 @@ def getQCByHeight (mode : CacheKeying) (c : Cache) (v : IView) (h : Nat) : (Nat 
   let r := getBlockByHeight mode c v h
   ((qc.1, qc.2, r.1), r.2)
 
+/-! ## `GetBlocks(PageParams)`: a page of blocks, newest first
+
+`getBlockForPage(height, transactions)` resolves the height through the view, serves a cached block result,
+otherwise loads the block — with or without its transactions — and (the code as it stands, derived from
+generated facts in `Props/C10.lean`) does NOT put what it loaded into the cache. `setBlocksTook` calls it with
+`transactions = false` for the block just below the page. -/
+
+/-- whether `getBlockForPage` adds what it loaded to the block cache -/
+inductive PageFill
+  | none
+  | addsLoaded
+  deriving DecidableEq, Repr
+
+def getBlockForPage (pf : PageFill) (c : Cache) (v : IView) (h : Nat) (withTxs : Bool) : BlockRes × Cache :=
+  let hk := v.getB (blockHeightKey h)
+  match (if hk.isEmpty then none else c.lookup hk) with
+  | some b => (b, c.touch hk)
+  | none =>
+    let b := v.getBlock hk withTxs
+    (b, match pf with
+      | .none => c
+      | .addsLoaded => if !hk.isEmpty && v.pend.isEmpty then c.add hk b else c)
+
+/-- the heights present in the block-height index of the view, ascending (`blockHeightBounds` takes the first
+and the last by a forward and a reverse iterator) -/
+def IView.blockHeights (v : IView) : List Nat :=
+  (v.iter (joinLenPrefix [[6]])).map fun kv => beNat (kv.1.drop 3)
+
+/-- the blocks of the page, in order, threading the cache -/
+def pageReads (pf : PageFill) (v : IView) (hs : List Nat) (c : Cache) : List BlockRes × Cache :=
+  hs.foldl (fun (acc : List BlockRes × Cache) h =>
+    let r := getBlockForPage pf acc.2 v h true
+    (acc.1 ++ [r.1], r.2)) ([], c)
+
+/-- the heights of page `pageNumber` of size `perPage` (`PageParams.skipToIndex`, `Page.LoadCounted`) -/
+def pageHeights (oldest newest pageNumber perPage : Nat) : List Nat :=
+  let pp := if perPage = 0 then 10 else if perPage > 5000 then 5000 else perPage
+  let pn := if pageNumber = 0 then 1 else pageNumber
+  let start := (pn - 1) * pp
+  let total := newest - oldest + 1
+  ((List.range pp).map (· + start)).filterMap fun i => if i < total then some (newest - i) else none
+
+/-- `GetBlocks`: the page and the total count; then `setBlocksTook` reads the header of the block below the
+page (through the cache) unless the last block of the page is the oldest -/
+def getBlocks (pf : PageFill) (c : Cache) (v : IView) (pageNumber perPage : Nat) : (List BlockRes × Nat) × Cache :=
+  let hs := v.blockHeights
+  match hs.head?, hs.getLast? with
+  | some oldest, some newest =>
+    let r := pageReads pf v (pageHeights oldest newest pageNumber perPage) c
+    let c2 := match r.1.getLast? with
+      | some last => if oldest ≥ last.hHeight then r.2 else (getBlockForPage pf r.2 v (last.hHeight - 1) false).2
+      | none => r.2
+    ((r.1, newest - oldest + 1), c2)
+  | _, _ => (([], 0), c)
+
 /-- the key `IndexBlock` caches the block under -/
 def indexCacheKey (mode : CacheKeying) (h : Nat) (hash : Bytes) : Bytes :=
   match mode with
@@ -223,6 +278,7 @@ inductive IOp
   | purgeCache
   | getBlock (view : Option Nat) (h : Nat) (headerOnly : Bool)
   | getQC (view : Option Nat) (h : Nat)
+  | getBlocks (view : Option Nat) (pageNumber perPage : Nat)
 
 def IState.view (s : IState) : Option Nat → IView
   | none => s.live
@@ -244,5 +300,6 @@ def IState.apply (mode : CacheKeying) (s : IState) : IOp → IState
     { s with cache := (if hdr then getBlockHeaderByHeight mode s.cache (s.view vw) h
         else getBlockByHeight mode s.cache (s.view vw) h).2 }
   | .getQC vw h => { s with cache := (getQCByHeight mode s.cache (s.view vw) h).2 }
+  | .getBlocks vw pn pp => { s with cache := (getBlocks .none s.cache (s.view vw) pn pp).2 }
 
 end Canopy.Store
